@@ -2,6 +2,29 @@
 import os, re, subprocess, time
 from . import kani as _kani
 
+def replay_engine(crate, scenario, oid, what):
+    """bounded execution of the real code through replay/<crate> (a FALLBACK: never counted as proof)"""
+    def eng(prop, tier, work):
+        out = {"obligations": {}, "violations": [], "tool_errors": [], "cmds": [], "trusted": [], "functions": [], "coverage": {}}
+        here = os.path.dirname(os.path.dirname(os.path.abspath(__file__)))
+        out["cmds"].append("replay/run.sh %s %s  (bounded fallback on the real code)" % (crate, scenario))
+        try:
+            p = subprocess.run([os.path.join(here, "replay", "run.sh"), crate, scenario], capture_output=True, text=True, timeout=1200)
+        except subprocess.TimeoutExpired:
+            out["tool_errors"].append("fallback %s: timeout" % scenario); return out
+        m = re.search(r"RESULT %s (ok|VIOLATED)(.*)" % re.escape(scenario), p.stdout)
+        if not m:
+            out["tool_errors"].append("fallback %s: no result: %s" % (scenario, (p.stdout + p.stderr)[-400:])); return out
+        out["obligations"][oid] = {"unit": "replay/" + crate, "clause": "BOUNDED (fallback, consulted because the deductive check was undecided): " + what, "instances": 1,
+                                   "ok": m.group(1) == "ok", "back_end": "execution of the real code, bounded", "kind": "bounded"}
+        if m.group(1) != "ok":
+            out["violations"].append({"property": prop, "obligation": oid, "unit": "replay/" + crate, "item": None, "verus_message": "bounded execution found a failing input",
+                                      "sites": [{"item": None, "file": None, "line": None, "stmt": scenario}], "clause": what, "verus_output": p.stdout[-2000:],
+                                      "counterexample": {"failing_input": m.group(2).strip(), "replay_cmd": "replay/run.sh %s %s" % (crate, scenario)},
+                                      "note": "found by bounded execution of the real code (fallback engine); the deductive check itself was undecided"})
+        return out
+    return eng
+
 def nixtable_engine(prop, tier, work):
     """validates by execution the assumed nix signal table contract used by unit `names` (not a proof: an executed table check)"""
     out = {"obligations": {}, "violations": [], "tool_errors": [], "cmds": [], "trusted": [], "functions": [], "coverage": {}}
@@ -99,6 +122,7 @@ PROPS = {
                 claim="throttle_collect proved by Verus: every filter error is sent to the error channel exactly once, in order, the event is not batched and collection continues; only a closed error channel is critical. fs::worker proved: each failed watch/unwatch call is sent to the error channel once per named path, the other paths are still processed and the worker keeps running. error_hook / ErrorHook::{handle_crit,critical,elevate} proved: each received error handled exactly once, a raised critical is never ignored",
                 trusted="stand-ins in prelude/worker_env.rs, prelude/errhook_env.rs (error channel, OnceLock/Arc cell with ghost owner count, arbitrary error handler); Arc drops are not modelled (owner count at the time of handle_crit)"),
     "C18": dict(units=["command", "task"], level="proof",
+                fallback=[replay_engine("supervisor", "argv_exact_bounded", "C18.bounded.argv_exact_up_to_3_args", "to_spawnable hands over exactly the configured argv for all lists of <= 3 arguments over 12 awkward strings, Exec and Shell")],
                 assumptions=["tokio::process::Command passes argv byte for byte to execvp; process-wrap wrappers (KillOnDrop, ProcessSession, ProcessGroup::leader, ResetSigmask) do what their names say",
                              "string-like values are opaque and never inspected by the code under contract, so 'byte for byte' is identity of those values",
                              "the head of interpret_command_args (shell selection from --shell/$SHELL, whitespace split of the shell string) is string code outside the verifier's reach: not decided",
@@ -122,14 +146,14 @@ PROPS = {
                              "filter files' I/O (read_filter_file) not decided"],
                 claim="tail of dirs::ignores, head of WatchexecFilterer::new and head of FilteringArgs::normalise proved by Verus with all six flags symbolic: explicit --ignore-file entries always reach the filterer; each flag removes exactly the discovered sources it names; --ignore-nothing = the five flags",
                 trusted="stand-ins in prelude/clifilter_env.rs (Vec/iterator idioms, abstract paths)"),
-    "C13": dict(units=["fswatch"], level="proof",
+    "C13": dict(units=["fswatch", "cfgwatch"], level="proof",
                 assumptions=["the notify watcher is a map path -> recursion mode: watch() inserts/overwrites, unwatch() removes, either may fail arbitrarily leaving the map unchanged; Watcher::create yields an empty watcher of the requested kind (real notify back ends, recursive sub-watches, inotify auto-removal on delete: not decided; replayed on the real library by replay/lib scenarios)",
                              "a configured path set names each path once (distinct_paths): with the same path configured in both modes no registration can equal the configuration",
-                             "the configuration read by one iteration (pathset.get twice, file_watcher.get) does not change during it; a change made meanwhile is applied by the next iteration, whose start depends on ConfigWatched::next/Notify wake-ups: 'no lost wake-up' (tokio Notify, Changeable's RwLock, reconfiguration from inside handlers, deadlock freedom) is concurrency outside what contracts on this function can express: NOT decided",
+                             "the configuration read by one iteration (pathset.get twice, file_watcher.get) does not change during it; a change made meanwhile is applied by the next iteration: ConfigWatched::next and Config::signal_change are under contract in unit cfgwatch (logical-clock model of tokio Notify + the change counter: the watcher sleeps only on a Notified enabled before it read the counter, and only if the counter equals what it already reported; signal_change counts before it wakes; each setter signals once (structural)). tokio Notify itself, Changeable's RwLock, reconfiguration from inside handlers and deadlock freedom are concurrency outside what contracts can express: NOT decided",
                              "convergence is claimed per iteration in which no watch/unwatch call failed; with failures the record still mirrors the watcher, so a later fault-free iteration converges",
                              "notify_multi_path_errors (string/notify::Error code) is a stand-in: one runtime error per path the notify error names, at least one; errors.send is an abstract channel that counts accepted errors",
                              "`for` loops are desugared mechanically (R16) over a stand-in iterator yielding the Vec's elements in order; HashSet iteration order is arbitrary (vx_elems)"],
-                claim="fs::worker (whole function: outer loop, diff loops, unwatch/watch loops, error loops) proved by Verus against an abstract watcher: the worker's record always mirrors the active watcher, an empty configuration releases the watcher, after a fault-free iteration the registered map equals the configured set with its modes and kind, every failed call is reported once per named path and never ends the worker; unbounded",
+                claim="fs::worker (whole function: outer loop, diff loops, unwatch/watch loops, error loops) proved by Verus against an abstract watcher: the worker's record always mirrors the active watcher, an empty configuration releases the watcher, after a fault-free iteration the registered map equals the configured set with its modes and kind, every failed call is reported once per named path and never ends the worker; ConfigWatched::next/Config::signal_change proved not to lose a change between two waits (logical-clock model); unbounded",
                 trusted="stand-ins in prelude/fswatch_env.rs (abstract notify watcher, channels, configuration reads, HashSet, iterator)"),
     "C11": dict(units=["globset", "ignore"], level="proof",
                 assumptions=["glob matchers (ignore::gitignore::Gitignore built from --filter/--ignore patterns) are uninterpreted functions of (matcher, path, is_dir); num_ignores() > 0 is read as 'filter patterns configured'",
